@@ -6,7 +6,7 @@
    monitor on the implementation's output); [rescue_partition] carries the hypothesis that the initial
    components consist of leading proteins of distinct groups. *)
 From PGF Require Import Base.Prelude Base.PyStr Model.Fdr Model.Results Model.ProteinGroups Model.Grouping
-  Model.Scoring Model.Rescue Proofs.RescueProofs.
+  Model.Scoring Model.Competition Model.Rescue Model.Pipeline Proofs.RescueProofs Proofs.PipelineOptions.
 From Coq Require Import Permutation.
 
 (* the result is again a partition of exactly the first-pass proteins, without empty groups *)
@@ -76,6 +76,37 @@ Theorem C04_no_unidentified_same_as_subset : forall split l,
   exists s, rescued_groups split l = Ok s /\ groups s = subset_grouping (pmap_of l).
 Proof. exact no_unidentified_same_as_subset. Qed.
 Print Assumptions C04_no_unidentified_same_as_subset.
+
+(* the rescue cutoff is the PEP equivalent (10^-m) of the LOWEST score m among the first-pass rows accepted at the protein-group
+   FDR threshold (q < threshold) - among all rows when none is accepted; rows = (score, q-value) *)
+Theorem C04_accepted_rows : forall rows thr r, In r (accepted rows thr) <-> In r rows /\ (snd r < thr)%Q.
+Proof. exact accepted_spec. Qed.
+Print Assumptions C04_accepted_rows.
+
+Theorem C04_rescue_cutoff_is_worst_accepted : forall pw rows thr c,
+  rescue_score_cutoff pw rows thr = Ok c ->
+  let pool := match accepted rows thr with [] => rows | _ => accepted rows thr end in
+  exists m, c = pw m /\ In m (map fst pool) /\ forall r, In r pool -> (m <= fst r)%Q.
+Proof. exact rescue_cutoff_is_worst_accepted. Qed.
+Print Assumptions C04_rescue_cutoff_is_worst_accepted.
+
+(* inside the whole inference function the threshold option reaches the result ONLY through that cutoff, computed from the rows of
+   the first pass: two thresholds that accept the same worst group give the same result *)
+Theorem C04_threshold_acts_through_rescue_cutoff : forall me o st l ka thr thr' pc pis s0 st1 infos1 rows1,
+  group_proteins (m_grouping me) l = Ok s0 ->
+  one_pass me o {| ps_seen := ps_seen st; ps_counts := if m_razor me then Some l else ps_counts st;
+                   ps_pep_cutoff := ps_pep_cutoff st; ps_rescue_cutoff := ps_rescue_cutoff st;
+                   ps_obsolete := ps_obsolete st |} s0 l false ka pc (nth 0 pis []) (nth 1 pis []) = (st1, Ok (infos1, rows1)) ->
+  rescue_score_cutoff (o_pow10neg o) (map (fun r => (r_score r, r_q r)) rows1) thr =
+  rescue_score_cutoff (o_pow10neg o) (map (fun r => (r_score r, r_q r)) rows1) thr' ->
+  snd (run me o st l ka thr pc pis) = snd (run me o st l ka thr' pc pis).
+Proof. exact threshold_acts_through_rescue_cutoff. Qed.
+Print Assumptions C04_threshold_acts_through_rescue_cutoff.
+
+Example C04_rescue_cutoff_witness :
+  rescue_score_cutoff (fun x => x) [((5#1), (0#1)); ((3#1), (1#10)); ((2#1), (1#2))]%Q (1#5)%Q = Ok (3#1)%Q /\
+  rescue_score_cutoff (fun x => x) [((5#1), (1#1)); ((3#1), (1#1))]%Q (1#100)%Q = Ok (3#1)%Q.
+Proof. exact rescue_cutoff_witness. Qed.
 
 (* non-vacuity: A, B, C pairwise linked by shared-only peptides (no admissible cut: splitter answers []) are merged into one
    group; old groups [A];[B];[C] are completely absorbed and become placeholders; D kept nothing and stays *)
